@@ -577,14 +577,26 @@ func (c *FnCtx) assignOrdinals() {
 		in  ssa.Instruction
 		key string
 	}
-	var calls, rets, stores []ent
+	var calls, rets, stores, misc []ent
+	c.miscOrdOf = map[ssa.Instruction]int{}
 	for _, b := range c.fn.Blocks {
 		if b == c.fn.Recover {
 			continue // only reachable through recovered panics: not modelled
 		}
 		for _, in := range b.Instrs {
 			switch x := in.(type) {
+			case *ssa.MapUpdate:
+				misc = append(misc, ent{in, "mapupdate"})
 			case *ssa.Call:
+				if bi, isB := x.Call.Value.(*ssa.Builtin); isB {
+					switch bi.Name() {
+					case "append", "copy":
+						misc = append(misc, ent{in, bi.Name()})
+					case "delete":
+						misc = append(misc, ent{in, "mapdelete"})
+					}
+					continue
+				}
 				if n, _ := c.calleeName(&x.Call); n != "" {
 					calls = append(calls, ent{in, shortName(n)})
 				}
@@ -633,6 +645,13 @@ func (c *FnCtx) assignOrdinals() {
 	number(calls, c.callOrdOf)
 	number(rets, c.retOrdOf)
 	number(stores, c.storeOrdOf)
+	number(misc, c.miscOrdOf)
+	c.miscOrdCC = map[*ssa.CallCommon]int{}
+	for in, n := range c.miscOrdOf {
+		if call, ok := in.(*ssa.Call); ok {
+			c.miscOrdCC[&call.Call] = n
+		}
+	}
 }
 
 // sentinelError reports whether gl is an error-typed package variable whose only store in its package is
